@@ -2,11 +2,16 @@
 // Case (see coq/C19/Model.v run_case):
 //   activeLevel prefixN nGroups { capLen cap.. level nOpts { nameLen name.. alias neg level flag arg? impl? dflt? descLen desc.. }* }*
 //   x? : 0 | 1 len bytes
+//   flag bit 0: the value is a flag.  flag bit 1: the option is DECLARED THROUGH ITS KEY STRING: `name` is the key (name[!][,alias][,@level], any
+//   bytes) handed to group.addOptions()(key, value, desc), `level` is set on the value beforehand (Value::level), alias / neg are not read; a key
+//   the init helper refuses (Po::Error) declares nothing.  Without bit 1 the harness writes the key name[!][,alias],@level itself.
+//   group level L >= 8: the group is created with level L/8-1, the options are declared in it, then OptionGroup::setDescriptionLevel(L%8) is
+//   called before the group is handed to OptionContext::add (L < 8: created and added with level L).
 //   The groups are OptionGroups handed to OptionContext::add in this order; captions may repeat (with different levels): the context
 //   merges them (the model does the same merge: coq/C19/Model.v add_group).
 //   optional trailer (NOT read by the model: it does not change the context a correct implementation ends up with):
 //   nDirectives { group k kind target nTail }*   - see struct Directive
-// Observation: [-997 if the context is inconsistent after the adds] per option (context order) nameLen name.. alias level neg ; descLen desc.. fault(0) ; defsLen defs.. ;
+// Observation: [-997 if the context is inconsistent after the adds] per declaration (in order) nameLen name.. alias level neg of the registered option | -1 (key refused) ; descLen desc.. fault(0) ; defsLen defs.. ;
 //              0 nParsed { optIndex valLen val.. }*  |  errorClass (1 unknown, 2 ambiguous, 3 syntax, 9 other)
 #include "common.h"
 #include <deque>
@@ -18,10 +23,10 @@ namespace Po = Potassco::ProgramOptions;
 
 struct Spec {
 	std::string name, arg, impl, dflt, desc, key; bool hasArg, hasImpl, hasDflt; bool b; std::string s;
-	ll alias; bool neg; ll level; bool flag;
-	Spec() : hasArg(false), hasImpl(false), hasDflt(false), b(false), alias(0), neg(false), level(0), flag(false) {}
+	ll alias; bool neg; ll level; bool flag, keyed, refused;
+	Spec() : hasArg(false), hasImpl(false), hasDflt(false), b(false), alias(0), neg(false), level(0), flag(false), keyed(false), refused(false) {}
 };
-struct GroupSpec { std::string cap; ll level; size_t first, count; };
+struct GroupSpec { std::string cap; ll level, declLevel, addLevel; size_t first, count; };
 // A directive says how the context's group g is really put together: the group of the case is handed to OptionContext::add in several
 // pieces (same caption, same level), and a piece may end in options the context must REFUSE (DuplicateOption, caught, caller carries on):
 //   kind 0 clash of the long name with an option registered earlier, 1 clash of the alias, 3 clash of the long name + an unused alias,
@@ -45,13 +50,16 @@ int main() {
 			GroupSpec gs;
 			gs.cap = c.bytes((size_t)c.next());
 			gs.level = c.next();
+			gs.declLevel = gs.level < 8 ? gs.level : gs.level / 8 - 1;
+			gs.addLevel  = gs.level < 8 ? gs.level : gs.level % 8;
 			gs.first = specs.size();
 			gs.count = (size_t)c.next();
 			for (size_t k = 0; k != gs.count; ++k) {
 				specs.push_back(Spec());
 				Spec& s = specs.back();
 				s.name = c.bytes((size_t)c.next());
-				s.alias = c.next(); s.neg = c.next() != 0; s.level = c.next(); s.flag = c.next() != 0;
+				s.alias = c.next(); s.neg = c.next() != 0; s.level = c.next();
+				{ ll f = c.next(); s.flag = (f & 1) != 0; s.keyed = (f & 2) != 0; }
 				if (c.next() != 0) { s.hasArg = true;  s.arg = c.bytes((size_t)c.next()); }
 				if (c.next() != 0) { s.hasImpl = true; s.impl = c.bytes((size_t)c.next()); }
 				if (c.next() != 0) { s.hasDflt = true; s.dflt = c.bytes((size_t)c.next()); }
@@ -68,21 +76,23 @@ int main() {
 				dirs.push_back(d);
 			}
 		}
+		std::vector<size_t> acc;   // the declarations accepted so far (all of them unless a key was refused), in order
 		try {
 			for (size_t g = 0; g != ng; ++g) {
 				const GroupSpec& gs = groups[g];
-				std::unique_ptr<Po::OptionGroup> piece(new Po::OptionGroup(gs.cap, (Po::DescriptionLevel)gs.level));
+				// a group is created with its declaration level; its level when handed to add may have been changed by setDescriptionLevel
+				std::unique_ptr<Po::OptionGroup> piece(new Po::OptionGroup(gs.cap, (Po::DescriptionLevel)gs.declLevel));
 				for (size_t k = 0; k <= gs.count; ++k) {
-					size_t cur = gs.first + k;   // number of options the context has accepted so far (pieces are added in order)
+					size_t cur = acc.size();     // number of options declared (and, piece by piece, accepted by the context) so far
 					for (size_t di = 0; di != dirs.size(); ++di) {
 						const Directive& d = dirs[di];
 						if (d.g != g || std::min(d.k, gs.count) != k || cur == 0) continue;
 						if (d.kind != 2) {
-							size_t t = d.target % cur;
+							size_t t = acc[d.target % cur];
 							ll kind = d.kind;
 							if (kind == 1) {
 								std::vector<size_t> withAlias;
-								for (size_t j = 0; j != cur; ++j) if (specs[j].alias) withAlias.push_back(j);
+								for (size_t j = 0; j != cur; ++j) if (specs[acc[j]].alias) withAlias.push_back(acc[j]);
 								if (withAlias.empty()) kind = 0; else t = withAlias[d.target % withAlias.size()];
 							}
 							std::string tag = "Z" + std::to_string(di);
@@ -97,30 +107,46 @@ int main() {
 								piece->addOption(Po::SharedOptPtr(new Po::Option(refusedNames.back(), 0, "behind the refused option", Po::storeTo(sinks.back())->defaultsTo("1"))));
 							}
 							bool refused = false;
+							piece->setDescriptionLevel((Po::DescriptionLevel)gs.addLevel);
 							try { ctx.add(*piece); } catch (const Po::DuplicateOption&) { refused = true; }
 							if (!refused) anomaly = true;
 						}
-						else { ctx.add(*piece); }
-						piece.reset(new Po::OptionGroup(gs.cap, (Po::DescriptionLevel)gs.level));
+						else { piece->setDescriptionLevel((Po::DescriptionLevel)gs.addLevel); ctx.add(*piece); }
+						piece.reset(new Po::OptionGroup(gs.cap, (Po::DescriptionLevel)gs.declLevel));
 					}
 					if (k == gs.count) break;
-					Spec& s = specs[cur];
+					Spec& s = specs[gs.first + k];
 					Po::Value* v = s.flag ? static_cast<Po::Value*>(Po::flag(s.b)) : static_cast<Po::Value*>(Po::storeTo(s.s));
 					// the three descriptions share one setter (Value::desc) whose storage depends on how many were set before:
 					// attach them in an order chosen from the case (all six orders occur)
 					static const int perm[6][3] = {{0,1,2},{0,2,1},{1,0,2},{1,2,0},{2,0,1},{2,1,0}};
-					const int* pm = perm[(s.name.size() + (size_t)s.alias + (size_t)s.level + s.desc.size() + cur) % 6];
+					const int* pm = perm[(s.name.size() + (size_t)s.alias + (size_t)s.level + s.desc.size() + (gs.first + k)) % 6];
 					for (int j = 0; j != 3; ++j) {
 						if (pm[j] == 0 && s.hasArg)  v->arg(s.arg.c_str());
 						if (pm[j] == 1 && s.hasImpl) v->implicit(s.impl.c_str());
 						if (pm[j] == 2 && s.hasDflt) v->defaultsTo(s.dflt.c_str());
+					}
+					if (s.keyed) {
+						// the key string of the case goes to the real init helper; the value carries its own level; the group has its declaration level
+						s.key = s.name;
+						v->level((Po::DescriptionLevel)s.level);
+						try { piece->addOptions()(s.key.c_str(), v, s.desc.c_str()); }
+						catch (const Po::Error&) { s.refused = true; }      // "Invalid empty option name" / "Invalid Key": v was deleted by the helper
+						if (!s.refused) {
+							const Po::Option& made = **(piece->end() - 1);
+							s.name = made.name(); s.alias = (unsigned char)made.alias();
+							acc.push_back(gs.first + k);
+						}
+						continue;
 					}
 					s.key = s.name;
 					if (s.neg) s.key += '!';
 					if (s.alias) { s.key += ','; s.key += (char)s.alias; }
 					s.key += ",@"; s.key += std::to_string(s.level);
 					piece->addOptions()(s.key.c_str(), v, s.desc.c_str());
+					acc.push_back(gs.first + k);
 				}
+				piece->setDescriptionLevel((Po::DescriptionLevel)gs.addLevel);
 				ctx.add(*piece);
 			}
 		}
@@ -142,7 +168,7 @@ int main() {
 					if (!found) anomaly = true;
 				}
 			}
-			if (listed != ctx.size() || ctx.size() != specs.size()) anomaly = true;
+			if (listed != ctx.size() || ctx.size() != acc.size()) anomaly = true;
 			for (Po::OptionContext::option_iterator x = ctx.begin(); x != ctx.end(); ++x) {
 				if (ctx.tryFind((*x)->name().c_str(), Po::OptionContext::find_name) != x) anomaly = true;
 			}
@@ -151,10 +177,15 @@ int main() {
 			}
 		}
 		if (anomaly) { o.add(-997); }
-		for (Po::OptionContext::option_iterator it = ctx.begin(); it != ctx.end(); ++it) {
-			const Po::Option& opt = **it;
-			o.add((ll)opt.name().size()); o.addBytes(opt.name().data(), opt.name().size());
-			o.add((unsigned char)opt.alias()); o.add((ll)opt.descLevel()); o.add(opt.value()->isNegatable() ? 1 : 0);
+		{
+			Po::OptionContext::option_iterator it = ctx.begin();
+			for (size_t i = 0; i != specs.size(); ++i) {
+				if (specs[i].refused) { o.add(-1); continue; }
+				if (it == ctx.end()) break;
+				const Po::Option& opt = **it; ++it;
+				o.add((ll)opt.name().size()); o.addBytes(opt.name().data(), opt.name().size());
+				o.add((unsigned char)opt.alias()); o.add((ll)opt.descLevel()); o.add(opt.value()->isNegatable() ? 1 : 0);
+			}
 		}
 		ctx.setActiveDescLevel((Po::DescriptionLevel)active);
 		std::string text;
